@@ -3,7 +3,8 @@ CURRENT src/tcpcl/session.py (and the CAN_TLS flag value of contact.py).
 
 Translated fragments (property C15):
 
- (a) Messenger.merge_contact_params   -> tls_attempt
+ (a) Messenger.merge_contact_params (both flag extractions and their
+     combination)                      -> tls_attempt over the two flags octets
  (b) Messenger.recv_message, contact-header branch, everything after the call
      of merge_contact_params()         -> contact_outcome
  (c) the decision tail of match_id()   -> match_id   (3-valued)
@@ -259,17 +260,32 @@ def tr_merge_contact_params(tree, can_tls_value):
     if len(stmts) != 3:
         _fail(func, 'merge_contact_params: expected 3 statements')
     env = {}
-    for (stmt, local, head, coq) in ((stmts[0], 'this_can_tls', 'self._conhead_this.flags', 'this_can'),
-                                     (stmts[1], 'peer_can_tls', 'self._conhead_peer.flags', 'peer_can')):
+    lets = []
+    can = 'contact.ContactV4.Flag.CAN_TLS'
+    for (stmt, local, head, coq) in ((stmts[0], 'this_can_tls', 'self._conhead_this.flags', 'this_flags'),
+                                     (stmts[1], 'peer_can_tls', 'self._conhead_peer.flags', 'peer_flags')):
         val = single_assign(stmt, local)
-        if not (isinstance(val, ast.BinOp) and isinstance(val.op, ast.BitAnd)
-                and dotted(val.left) == head and dotted(val.right) == 'contact.ContactV4.Flag.CAN_TLS'):
+        # the offer extracted from a contact-header flags OCTET (an N in the model).  Whitelist:
+        #   flags & CAN_TLS   -> 0 or CAN_TLS (= 1, checked above): truthy iff the bit is set
+        #   flags == CAN_TLS / flags != CAN_TLS -> a bool
+        # both are 0/1-valued, which the later `self._tls_attempt != require_tls` relies on; any other
+        # operator (|, ^, >>, <, in, ...) or operand raises.
+        if isinstance(val, ast.BinOp) and isinstance(val.op, ast.BitAnd) \
+                and sorted([dotted(val.left) or '', dotted(val.right) or '']) == sorted([head, can]):
+            term = '(negb (N.eqb (N.land %s can_tls_bit) 0))' % coq
+        elif isinstance(val, ast.Compare) and len(val.ops) == 1 and isinstance(val.ops[0], (ast.Eq, ast.NotEq)) \
+                and sorted([dotted(val.left) or '', dotted(val.comparators[0]) or '']) == sorted([head, can]):
+            term = '(N.eqb %s can_tls_bit)' % coq
+            if isinstance(val.ops[0], ast.NotEq):
+                term = '(negb %s)' % term
+        else:
             _fail(stmt, 'expected %s = (%s & contact.ContactV4.Flag.CAN_TLS)' % (local, head))
-        env[local] = (coq, 'bool')
+        lets.append('let %s := %s in' % (local, term))
+        env[local] = (local, 'bool')
     val = single_assign(stmts[2], 'self._tls_attempt')
     if not isinstance(val, (ast.BoolOp, ast.Name, ast.UnaryOp)):
         _fail(val, 'self._tls_attempt must be a boolean combination of the two locals')
-    return Expr(env).truth(val)
+    return '\n  '.join(lets + [Expr(env).truth(val)])
 
 
 def can_tls_flag(contact_tree):
@@ -670,8 +686,10 @@ Definition ret_ref (ref : option id) : mres := match ref with Some _ => Matched 
 Definition ne_opt (b : bool) (o : option bool) : bool :=
   match o with Some r => negb (Bool.eqb b r) | None => true end.
 
-(* (a) Messenger.merge_contact_params: self._tls_attempt *)
-Definition tls_attempt (this_can peer_can : bool) : bool :=
+(* (a) Messenger.merge_contact_params: self._tls_attempt as a function of the flags OCTETS of the two
+   contact headers (any value, reserved bits included).  can_tls_bit = contact.ContactV4.Flag.CAN_TLS. *)
+Definition can_tls_bit : N := @@CANTLS@@%N.
+Definition tls_attempt (this_flags peer_flags : N) : bool :=
   @@ATTEMPT@@.
 
 (* (b) Messenger.recv_message, contact-header branch after merge_contact_params().
@@ -722,13 +740,14 @@ def generate(repo_src):
         tree = ast.parse(infile.read(), path)
     with open(os.path.join(repo_src, 'tcpcl', 'contact.py'), 'r') as infile:
         contact_tree = ast.parse(infile.read())
-    attempt = tr_merge_contact_params(tree, can_tls_flag(contact_tree))
+    can_tls_value = can_tls_flag(contact_tree)
+    attempt = tr_merge_contact_params(tree, can_tls_value)
     outcome = tr_recv_message(tree)
     matchid = tr_match_id(tree)
     sess = tr_merge_session_params(tree)
     lets = '\n'.join('  let %s := %s in' % item for item in sess['lets'])
     bool_lets = '\n'.join('  let %s := %s in' % item for item in sess['bool_lets'])
-    text = (TEMPLATE.replace('@@ATTEMPT@@', attempt)
+    text = (TEMPLATE.replace('@@ATTEMPT@@', attempt).replace('@@CANTLS@@', '%d' % can_tls_value)
             .replace('@@OUTCOME@@', outcome)
             .replace('@@MATCHID@@', matchid)
             .replace('@@DNSID@@', sess['dnsid'])
